@@ -3,6 +3,7 @@
 package checks
 
 import (
+	"encoding/binary"
 	"bytes"
 	"fmt"
 
@@ -374,6 +375,26 @@ func c06Tree(r *ev.Run, n *wire.N, h bind.Hist, ret *retained, rep any) {
 						maskXidsRaw(i2)
 						if !bytes.Equal(e, i2) {
 							bad("embed:bundle_add.Message", fmt.Sprintf("the embedded message differs from its standalone encoding: %x vs %x", head(e, 48), head(i2, 48)))
+						}
+					}
+					// the properties, each intact and zero-padded to 16 bytes, are the last bytes of the encoding;
+					// between the message and the first of them only zero bytes, fewer than 8
+					if props := vd.L["Properties"]; len(props) > 0 {
+						var want []byte
+						for _, p := range props {
+							pb := []byte{0xff, 0xff, 0, 12, 0, 0, 0, 0, 0, 0, 0, 0, 0, 0, 0, 0}
+							binary.BigEndian.PutUint32(pb[4:], uint32(p.U["ExperimenterID"]))
+							binary.BigEndian.PutUint32(pb[8:], uint32(p.U["ExperimenterType"]))
+							want = append(want, pb...)
+						}
+						gap := len(b) - len(want) - 24 - len(ib)
+						switch {
+						case gap < 0 || gap > 7:
+							bad("embed:bundle_add.Properties", fmt.Sprintf("%d bytes stand between the %d-byte message and the %d bytes of properties in an encoding of %d bytes", gap, len(ib), len(want), len(b)))
+						case !bytes.Equal(b[len(b)-len(want):], want):
+							bad("embed:bundle_add.Properties", fmt.Sprintf("the encoding ends in %x, the properties (each padded to 16 bytes) are %x", b[len(b)-len(want):], want))
+						case !bytes.Equal(b[24+len(ib):len(b)-len(want)], make([]byte, gap)):
+							bad("embed:bundle_add.Properties", "the bytes between the message and the first property are not zero")
 						}
 					}
 				}
